@@ -197,6 +197,11 @@ func cellDiff(e term.VerifCell, r refterm.Cell) string {
 	}
 	bgOK := es.Bg == r.Style.Bg || (r.EitherBg && es.Bg.K == refterm.ColDefault)
 	if eBlank {
+		if e.Width > 1 {
+			// the widget's Draw steps by cell width: a blank that claims two
+			// columns hides whatever the next column holds
+			return fmt.Sprintf("blank-width emulator %d: a blank occupies one column", e.Width)
+		}
 		if !bgOK {
 			return fmt.Sprintf("blank-background emulator %s reference %s", es.Bg, r.Style.Bg)
 		}
